@@ -36,7 +36,9 @@ def words_for(ctx, enc, n, k, t, budget):
     rng = ctx.rng
     out = []
     msgs = c01.messages(ctx, k, 6, 12)
-    pats = list(patterns(n, t)) if sum(1 for _ in patterns(n, min(t, 3))) * len(msgs) <= budget else None
+    from math import comb
+    npat = sum(comb(n, w) for w in range(t + 1))
+    pats = list(patterns(n, t)) if npat * len(msgs) <= budget else None
     M = torch.tensor(msgs, dtype=torch.float32)
     C = enc(M)
     if pats is not None:
@@ -97,8 +99,16 @@ def plan(ctx):
             byk.setdefault((dd[name]["c"].family, kind), []).append((name, kind))
         out = []
         for key, lst in byk.items():
-            step = max(1, len(lst) // 5)
-            out += lst[::step][:5]
+            chosen, seen_info = [], set()
+            for item in lst:                      # one instance per kind of information set first
+                tag = str(dd[item[0]]["c"].params.get("info", ""))
+                if tag not in seen_info:
+                    seen_info.add(tag); chosen.append(item)
+            step = max(1, len(lst) // 4)
+            for item in lst[1::step]:
+                if item not in chosen and len(chosen) < 7:
+                    chosen.append(item)
+            out += chosen[:7]
     return out
 
 
@@ -159,7 +169,9 @@ def corr(ctx):
             else:
                 fn, site = ReedMullerDecoder(enc), "fec.decoders:ReedMullerDecoder"
                 tt = t
-            cs = words_for(ctx, enc, n, k, tt, 6000 if ctx.thorough else 1500)
+            cs = words_for(ctx, enc, n, k, tt, 6000 if ctx.thorough else 800)
+            if not ctx.thorough and len(cs) > 800:
+                cs = ctx.rng.sample(cs, 800)
             res = _dec(fn, [w for w, _, _ in cs])
             bad = [(w, m, wt, o) for (w, m, wt), o in zip(cs, res) if o != bits(m)]
             ctx.count("test_" + kind, len(cs))
